@@ -8,7 +8,9 @@ From DV Require Import Model.PyPrims Gen.CharClasses Model.Tokenizer Model.Newic
      Model.C02Nexml Model.C02FlagsSpec
      Proofs.C02Escape Proofs.C02Main Proofs.C02ListMain Proofs.C02NexusDoc Proofs.C02NexusRead Proofs.C02NexusMain
      Proofs.C02Nexml Proofs.C02NexmlMain Proofs.C02Flags
-     Model.C02GenPrims Gen.NewickGen Model.C02GenSpec Proofs.C02GenEsc Proofs.C02GenTok Proofs.C02GenWriter Proofs.C02GenReader.
+     Model.C02GenPrims Gen.NewickGen Model.C02GenSpec Proofs.C02GenEsc Proofs.C02GenTok Proofs.C02GenWriter Proofs.C02GenReader
+     Model.C02Meta Model.C02MetaSpec Proofs.C02MetaMain Model.C02MetaAnn Model.C02MetaAnnSpec Proofs.C02MetaAnn
+     Gen.NewickMeta Proofs.C02GenMeta.
 Import ListNotations.
 Open Scope Z_scope.
 
@@ -390,3 +392,257 @@ Theorem gen_parse_tree_statement_eq :
   end.
 Proof. exact statement_gen_expanded. Qed.
 Print Assumptions gen_parse_tree_statement_eq.
+
+(* ------------------------------------------------------------------------------------------------ *)
+(* METADATA: rooting state, tree weight, annotations and comments (Model/C02Meta.v on top of
+   Model/Newick.v; spec definitions Model/C02MetaSpec.v). *)
+
+(* Newick round trip of a tree that carries a rooting state, a weight, annotations and comments on
+   the tree, and annotations and comments on every node and edge.  Writer: NewickWriter with
+   store_tree_weights = mo_sw, suppress_annotations = mo_sa, suppress_item_comments = mo_sic and the
+   label / rooting options of newick_roundtrip; reader: NewickReader with the same store_tree_weights,
+   extract_comment_metadata = mo_ex, default_tree_weight = dw.  The reader delivers one tree with
+   * the written rooting state;
+   * weight: untouched (None) without store_tree_weights; with it the value of the written expression
+     ("[&W x] " -> float(x), "[&W n/d] " for a Fraction -> float(n)/float(d) = wdiv n d), and
+     default_tree_weight for a tree that has no weight (expected_weight);
+   * on the tree the comment texts written in front of the statement (tcm: the annotation comment
+     "&k=v,..." then tree.comments in order), passed through process_comments_for_item (pc);
+   * the node structure of newick_roundtrip (cexpect: same topology, child order, taxa numbered in
+     token order, internal labels, edge lengths; resolve ... = norm of the undecorated tree), every node
+     carrying the comment texts written for it IN ORDER: node annotation comment, edge annotation
+     comment, node.comments, edge.comments (the Newick reader gives all of them to the node: edge
+     comments come back as node comments), again passed through process_comments_for_item.
+   Third conjunct (the statement for plain comments): when no written comment text is taken for
+   metadata (plain_mtree: extract_comment_metadata=False or the text does not start with "&"), the
+   tree and every node carry exactly the written comments, and no annotations.
+   Domain (mwf) - boolean admissibility predicates:
+   * cwf: the undecorated tree is in the domain of newick_roundtrip, and every comment text written
+     inside the statement is bracket_free: Tokenizer._handle_comment counts nested brackets and drops
+     them from the captured text (comment_bracket_refuted);
+   * tree_comment_ok on the texts in front of the statement: bracket free, and the stripped text is not
+     a rooting comment (&R &r &U &u) nor, under store_tree_weights, starts with "&W " / "&w ":
+     _process_tree_comments would take it for one (tree_comment_directive_refuted);
+   * root_ok: a single-node tree carries no comment text on the tree (other than rooting / weight) and
+     none on the node: its statement starts with the label token, which captures both kinds
+     (single_node_comments_refuted, single_node_quoted_refuted);
+   * weight_ok: the quotient of a Fraction weight is defined; rooting_consistent as in newick_roundtrip.
+   Premises on the abstract numerals: the two of newick_roundtrip; weight numerals contain no bracket,
+   "/" or whitespace; float() ignores a leading blank (the expression is the text after "&W"). *)
+Theorem newick_meta_roundtrip :
+  forall (L : Type) (render_len : L -> str) (parse_len : str -> option L) (lower : str -> str)
+         (wdiv : L -> L -> option L) (RA : Type) (parse_md : str -> list RA),
+    (forall x, parse_len (render_len x) = Some x) ->
+    (forall x, render_len x <> [] /\ forallb numeral_char (render_len x) = true) ->
+    (forall x, forallb weight_char (render_len x) = true) ->
+    (forall s, parse_len (SPACE :: s) = parse_len s) ->
+  forall (mo : mt_opts) (dw : L) (t : mtree L),
+    mwf L wdiv mo t = true ->
+    NoDup (map lower (taxa_order L (mo_rt mo) (strip L (mt_root L t)))) ->
+    let ns := taxa_order L (mo_rt mo) (strip L (mt_root L t)) in
+    let p := fst (cexpect L mo (mt_root L t) 0) in
+    let pc := process_comments RA parse_md (mo_ex mo) (tcm L mo t) in
+    read_newick_m L parse_len lower wdiv RA parse_md (mo_ropts L mo dw) []
+                  (cwrite_tree_list L render_len (mo_wopts mo) [t])
+      = Ok ([mkMR (mt_rooted L t) (expected_weight L wdiv mo dw t) (fst pc) (snd pc)
+                  (process_ptree L RA parse_md (mo_ex mo) p)], ns)
+    /\ resolve L ns p = Some (norm L (strip L (mt_root L t)))
+    /\ (plain_mtree L mo t = true ->
+        fst pc = [] /\ snd pc = tcm L mo t /\ process_ptree L RA parse_md (mo_ex mo) p = as_plain p).
+Proof. exact newick_meta_roundtrip_l. Qed.
+Print Assumptions newick_meta_roundtrip.
+
+(* non-vacuity: a rooted tree with weight 1/2, two tree comments, node and edge comments, a quoted
+   label, in the domain *)
+Theorem newick_meta_roundtrip_example :
+  mwf str sym_div mo_ex1 ex_mtree = true /\ plain_mtree str mo_ex1 ex_mtree = true.
+Proof. exact ex_mtree_wf. Qed.
+Print Assumptions newick_meta_roundtrip_example.
+
+(* Outside bracket_free: the comment "x[y]z" is written "[x[y]z]" and read back as "xyz". *)
+Theorem comment_bracket_refuted :
+  mwf str sym_div mo_ex1 bracket_mtree = false /\
+  exists p,
+  read_newick_m str parse_num_ws (fun s => s) sym_div unit no_md (mo_ropts str mo_ex1 [49; 46; 48]) []
+                (cwrite_tree_list str (fun x => x) (mo_wopts mo_ex1) [bracket_mtree])
+  = Ok ([mkMR None (Some [49; 46; 48]) [] [[120; 121; 122]] p], [[97]; [98]]).
+Proof. exact comment_bracket_refuted_l. Qed.
+Print Assumptions comment_bracket_refuted.
+
+(* Outside root_ok: the single-node tree "a" with tree comment "tc" and node comment "nc" is written
+   "[tc]a[nc];" and read back with BOTH comments on the tree and none on the node. *)
+Theorem single_node_comments_refuted :
+  mwf str sym_div mo_ex1 single_mtree = false /\
+  read_newick_m str parse_num_ws (fun s => s) sym_div unit no_md (mo_ropts str mo_ex1 [49; 46; 48]) []
+                (cwrite_tree_list str (fun x => x) (mo_wopts mo_ex1) [single_mtree])
+  = Ok ([mkMR None (Some [49; 46; 48]) [] [[116; 99]; [110; 99]] (MPN (Some 0%nat) None None [] [] [])], [[97]]).
+Proof. exact single_node_comments_refuted_l. Qed.
+Print Assumptions single_node_comments_refuted.
+
+(* Outside root_ok: the single-node tree "a(" (written quoted) with a tree comment, "[tc]'a(';", is
+   rejected by the reader: after a comment the unquoted-token loop takes the quote for a plain
+   character. *)
+Theorem single_node_quoted_refuted :
+  mwf str sym_div mo_ex1 single_quoted_mtree = false /\
+  read_newick_m str parse_num_ws (fun s => s) sym_div unit no_md (mo_ropts str mo_ex1 [49; 46; 48]) []
+                (cwrite_tree_list str (fun x => x) (mo_wopts mo_ex1) [single_quoted_mtree])
+  = Err ParseErr.
+Proof. exact single_node_quoted_refuted_l. Qed.
+Print Assumptions single_node_quoted_refuted.
+
+(* Outside tree_comment_ok: the tree comments " &R" and "&w 3" of an unrooted tree without weight come
+   back as rooting state True and weight 3. *)
+Theorem tree_comment_directive_refuted :
+  mwf str sym_div mo_ex1 rooting_comment_mtree = false /\
+  exists p,
+  read_newick_m str parse_num_ws (fun s => s) sym_div unit no_md (mo_ropts str mo_ex1 [49; 46; 48]) []
+                (cwrite_tree_list str (fun x => x) (mo_wopts mo_ex1) [rooting_comment_mtree])
+  = Ok ([mkMR (Some true) (Some [51]) [] [] p], [[97]; [98]]).
+Proof. exact tree_comment_directive_refuted_l. Qed.
+Print Assumptions tree_comment_directive_refuted.
+
+(* The enumerated options alone (rooting token, store_tree_weights; the writer's defaults
+   suppress_annotations = suppress_item_comments = True): no comment text is written besides the rooting
+   and weight tokens, each of which ends in a blank, so the domain of newick_meta_roundtrip is exactly
+   the domain of newick_roundtrip plus weight_ok - single-node trees with quoted labels included
+   (the situation of single_node_quoted_refuted needs a comment written WITHOUT a blank, i.e.
+   suppress_item_comments=False or suppress_annotations=False). *)
+Theorem newick_weights_domain : forall (L : Type) (wdiv : L -> L -> option L) (mo : mt_opts) (t : mtree L),
+  mo_sa mo = true -> mo_sic mo = true ->
+  mwf L wdiv mo t = wf_tree L (mo_rt mo) (strip L (mt_root L t)) && weight_ok L wdiv mo t
+                    && rooting_consistent (mo_rt mo) (mt_rooted L t).
+Proof. exact mwf_default_comments. Qed.
+Print Assumptions newick_weights_domain.
+
+(* the single-node tree "a(" (written quoted), rooted, weight 1/2, store_tree_weights=True:
+   "[&R] [&W 1/2] 'a(';" is in the domain and reads back with rooting, weight 1/2 and the taxon *)
+Theorem newick_weights_single_node_example :
+  mwf str sym_div mo_weights single_quoted_weighted = true /\
+  cwrite_tree_list str (fun x => x) (mo_wopts mo_weights) [single_quoted_weighted]
+  = [91; 38; 82; 93; 32; 91; 38; 87; 32; 49; 47; 50; 93; 32; 39; 97; 40; 39; 59; 10] /\
+  read_newick_m str parse_num_ws (fun s => s) sym_div unit no_md (mo_ropts str mo_weights [49; 46; 48]) []
+                (cwrite_tree_list str (fun x => x) (mo_wopts mo_weights) [single_quoted_weighted])
+  = Ok ([mkMR (Some true) (Some [49; 47; 50]) [] [] (MPN (Some 0%nat) None None [] [] [])], [[97; 40]]).
+Proof. exact single_quoted_weighted_ok. Qed.
+Print Assumptions newick_weights_single_node_example.
+
+(* METADATA COMMENTS.  The reader's parse_comment_metadata_to_annotations (Model/C02MetaAnn.v: the
+   backtracking semantics of the two regular expressions with re.findall, strip, and the value
+   interpretation) inverts the writer's format_item_annotations_as_comments: the comment text
+   "&k1=v1,k2=v2,..." written for a non-empty list of annotations is parsed back into the annotations
+   in order, every value as the reader represents it (expected_rval: a str as itself, an int as the
+   STRING of its digits - the reader has no value types -, a bool as a bool, a list as the list of its
+   elements' strings).  Admissibility (annots_ok, boolean, Model/C02MetaAnnSpec.v):
+   * names: non-empty, no "=", no newline, no leading/trailing whitespace; the first not starting with "&";
+   * scalar value texts: non-empty, no ",", no newline, no leading/trailing whitespace, not starting with
+     "{", not enclosed in double quotes, not true/false in any letter case (see the _refuted theorems);
+   * lists: at least two elements, element texts non-empty without "," "}" newline.
+   Premises on the abstract str.lower: "True" -> "true", "False" -> "false".
+   The annotations pass through a Python set hashed by id(): the order in which they are ADDED to the item
+   is not determined; the model (and this statement) deliver match order, the correspondence compares
+   up to permutation.  With newick_meta_roundtrip (whose result is stated through process_comments on
+   the written comment texts) this gives the round trip of annotations on trees and nodes:
+   process_annotation_comment below. *)
+Theorem metadata_comment_roundtrip :
+  forall (lower : str -> str), lower str_True = str_true -> lower str_False = str_false ->
+  forall anns : list annot, anns <> [] -> annots_ok lower anns = true ->
+    parse_md lower (AMP :: join_with COMMA (map render_annot anns)) = map expected_rannot anns.
+Proof. exact md_roundtrip. Qed.
+Print Assumptions metadata_comment_roundtrip.
+
+(* process_comments_for_item on the comment texts of an item written with suppress_annotations=False:
+   the annotation comment becomes the annotations, the remaining comments are processed as before. *)
+Theorem metadata_item_roundtrip :
+  forall (lower : str -> str), lower str_True = str_true -> lower str_False = str_false ->
+  forall (anns : list annot) (cs : list str), anns <> [] -> annots_ok lower anns = true ->
+  process_comments rannot (parse_md lower) true (annotation_texts anns ++ cs)
+  = (map expected_rannot anns ++ fst (process_comments rannot (parse_md lower) true cs),
+     snd (process_comments rannot (parse_md lower) true cs)).
+Proof. exact process_annotation_comment. Qed.
+Print Assumptions metadata_item_roundtrip.
+
+Theorem metadata_comment_roundtrip_example : annots_ok ascii_lower ex_annots = true.
+Proof. exact ex_annots_ok. Qed.
+Print Assumptions metadata_comment_roundtrip_example.
+
+(* A "," in a string value is written unprotected: k="a,b", j="z" is written "&k=a,b,j=z" and parsed as
+   k="a" plus an annotation NAMED "b,j" with value "z". *)
+Theorem metadata_value_comma_refuted :
+  annots_ok ascii_lower [([107], VAtom (AStr [97; 44; 98])); ([106], VAtom (AStr [122]))] = false /\
+  parse_md ascii_lower (AMP :: join_with COMMA (map render_annot [([107], VAtom (AStr [97; 44; 98])); ([106], VAtom (AStr [122]))]))
+  = [([107], RStr [97]); ([98; 44; 106], RStr [122])].
+Proof. exact md_comma_refuted_l. Qed.
+Print Assumptions metadata_value_comma_refuted.
+
+(* A one-element list in front of another list annotation: k=["a"], j=["x","y"] is written
+   "&k={a},j={x,y}" and parsed as the single annotation k = ["a}", "j={x", "y"]. *)
+Theorem metadata_single_item_list_refuted :
+  annots_ok ascii_lower [([107], VList [AStr [97]]); ([106], VList [AStr [120]; AStr [121]])] = false /\
+  parse_md ascii_lower (AMP :: join_with COMMA (map render_annot [([107], VList [AStr [97]]); ([106], VList [AStr [120]; AStr [121]])]))
+  = [([107], RList [[97; 125]; [106; 61; 123; 120]; [121]])].
+Proof. exact md_single_item_list_refuted_l. Qed.
+Print Assumptions metadata_single_item_list_refuted.
+
+(* The string value "true" comes back as the bool True. *)
+Theorem metadata_true_string_refuted :
+  annots_ok ascii_lower [([107], VAtom (AStr [116; 114; 117; 101]))] = false /\
+  parse_md ascii_lower (AMP :: join_with COMMA (map render_annot [([107], VAtom (AStr [116; 114; 117; 101]))]))
+  = [([107], RBool true)].
+Proof. exact md_true_string_refuted_l. Qed.
+Print Assumptions metadata_true_string_refuted.
+
+(* TRANSLATOR TIE for the metadata model (facts level).  Gen/NewickMeta.v is regenerated from the Python
+   source on every run by py/dv/gen_newickmeta.py (fail closed: the generator accepts only the statement
+   shapes and the regular-expression shape the model implements).  The model uses exactly the generated
+   weight token, comment brackets, annotation prefix / separator / suffix, the generated ORDER of the pieces
+   written by _write_tree and _write_node_body, the generated weight prefixes and quotient operand order of
+   _process_tree_comments, and the generated prefix chain of parse_comment_metadata_to_annotations.
+   (Control flow beyond these facts is tied by the metadata correspondence stage.) *)
+Theorem gen_meta_weight_token_eq : writer_weight_open = gen_weight_open /\ writer_weight_close = gen_weight_close.
+Proof. exact gen_weight_token_eq_l. Qed.
+Print Assumptions gen_meta_weight_token_eq.
+
+Theorem gen_meta_comment_bracket_eq : forall c, bracket c = gen_comment_open ++ c ++ gen_comment_close.
+Proof. exact gen_comment_bracket_eq_l. Qed.
+Print Assumptions gen_meta_comment_bracket_eq.
+
+Theorem gen_meta_annotation_comment_eq : forall anns, anns <> [] ->
+  flat_map bracket (annotation_texts anns)
+  = gen_ann_prefix ++ join_with gen_ann_separator (map render_annot anns) ++ gen_ann_suffix.
+Proof. exact gen_annotation_comment_eq_l. Qed.
+Print Assumptions gen_meta_annotation_comment_eq.
+
+Theorem gen_meta_write_tree_order_eq : forall L render_len o t,
+  cwrite_tree L render_len o t
+  = flat_map (tree_piece L render_len o t) gen_tree_order ++ cwrite_node L render_len o true (mt_root L t) ++ [SEMI].
+Proof. exact gen_write_tree_order_eq_l. Qed.
+Print Assumptions gen_meta_write_tree_order_eq.
+
+Theorem gen_meta_write_node_body_order_eq : forall L render_len o t,
+  cwrite_node_body L render_len o t = flat_map (body_piece L render_len o t) gen_body_order.
+Proof. exact gen_write_node_body_order_eq_l. Qed.
+Print Assumptions gen_meta_write_node_body_order_eq.
+
+Theorem gen_meta_weight_prefixes_eq : reader_weight_prefixes = gen_weight_prefixes.
+Proof. exact gen_weight_prefixes_eq_l. Qed.
+Print Assumptions gen_meta_weight_prefixes_eq.
+
+Theorem gen_meta_weight_quotient_eq : forall L parse_len wdiv we a b x y,
+  split_on SLASH we = [a; b] -> parse_len a = Some x -> parse_len b = Some y ->
+  parse_weight L parse_len wdiv we
+  = match wdiv (nth (fst gen_weight_quotient) [x; y] x) (nth (snd gen_weight_quotient) [x; y] x) with
+    | Some q => Ok q
+    | None => Err OtherErr
+    end.
+Proof. exact gen_weight_quotient_eq_l. Qed.
+Print Assumptions gen_meta_weight_quotient_eq.
+
+Theorem gen_meta_md_chain_eq : forall lower c,
+  parse_md lower c
+  = map (fun kv => (py_strip (fst kv), conv_val lower (py_strip (snd kv))))
+        (match find (fun e => starts_with (fst (fst e)) c) gen_md_chain with
+         | Some e => findall (snd e) (S (length c)) (skipn (snd (fst e)) c)
+         | None => []
+         end).
+Proof. exact gen_md_chain_eq_l. Qed.
+Print Assumptions gen_meta_md_chain_eq.
